@@ -162,11 +162,68 @@ def group_removal_rule(ctx, R, rid, only=None):
     return n
 
 
+def r11_3(ctx, R):
+    ctx.rule("R11.3", "the unbounded merge answers Pending only while some source is pending: on every feasible path of "
+                      "MergeUnbounded::poll_next that returns Pending, a group polled in this call answered Pending -- or the path has "
+                      "crossed a test of the groups' emptiness whose other outcome returns Ready(None).  (A source can end without "
+                      "yielding, so several groups can run dry in one pass; a pass that removed / retained only exhausted groups "
+                      "must end the stream, not park the task with nothing registered.)")
+    from groups import cursor_events
+    from c01 import group_loop_fns
+    n = 0
+    for b in group_loop_fns(ctx):
+        if not re.search(r"^<merge_\w+::", b.path):
+            continue
+        n += 1
+        ce = cursor_events(ctx, R, b)
+        if ce is None:
+            ctx.ob("R11.3", b, "pending-only-while-a-source-is-pending", False, d_loc(b), "cannot identify the group loop")
+            continue
+        fl = ctx.flow(b)
+
+        def emptiness_test_crossed(path):
+            """an edge of a switch on an emptiness observer of the groups (is_empty / all(is_empty) / len == 0) is crossed"""
+            for a_, b_ in zip(path, path[1:]):
+                for lab in fl.edge_labels(a_).get(b_, []):
+                    if lab[0] != "bool":
+                        continue
+                    x = lab[1]
+                    names = [c[1] or "" for c in expr_calls(x)] + ([x[1] or ""] if x[0] == "call" else [])
+                    # a test over the SOURCES held (every group empty of streams), not over the vector of groups: the vector keeps
+                    # its last group even when that group holds nothing
+                    own = re.match(r"^<([\w:]+)<", b.path).group(1)
+                    if c02.all_groups_empty_test(ctx, b, x) is not None:
+                        return True
+                    if any(n_ in ctx.facts.bodies and n_.startswith(own + "::") and re.search(r"::(is_empty|len)$", n_) for n_ in names):
+                        return True
+            return False
+        bad = None
+        npend = 0
+        for path, ev in ce[1]:
+            if not ev or ev[-1][0] != "RET" or ev[-1][1] != "Pending":
+                continue
+            npend += 1
+            polls = [e for e in ev if e[0] == "P"]
+            if any(e[1] == "Pending" for e in polls):
+                continue
+            if not polls:
+                continue          # nothing was polled: the path is the loop falling through with no iteration (len == 0 is excluded earlier)
+            last_p = max(e[2] for e in polls)
+            if emptiness_test_crossed(path[last_p:]):
+                continue
+            bad = (path, [(e[0], e[1]) for e in ev])
+            break
+        ctx.ob("R11.3", b, "pending-only-while-a-source-is-pending", bad is None and npend > 0, d_loc(b),
+               "%d Pending paths; %s" % (npend, "all justified" if bad is None else "unjustified: %s" % (bad[1],)), path=bad[0] if bad else None)
+    ctx.floor("R11.3", "unbounded-merge-poll_next", n, 1)
+
+
 def run(ctx):
     R = roles(ctx)
     R.pop_fn, R.drain_fn, R.mark_fn, R.remove_fn
     r11_1(ctx, R)
     r11_2(ctx, R)
+    r11_3(ctx, R)
     for fn_ in (c01.r1_1, c01.r1_2, c01.r1_3, c01.r1_4, c01.r1_5, c01.r1_8):
         fn_(ctx, R)
     ctx.rule("R1.x", "see C01 (shared): wake/poll handshake -- a source whose wake-up is lost never yields its remaining items")
